@@ -38,7 +38,7 @@ seeded changes and which check catches which in §11.
      rewritten only by a fixed, logged list of token-level rules (§2.2), with contracts merged in from side-car files in
      `/verif/contracts/`. 22 units, ≈ 80 extracted items (functions, closures, types), ≈ 560 verified functions and lemmas (Verus's "verified"
      count) carrying ≈ 1030 contract clauses, 1–13 s per unit.
-  2. **Kani, loop-free / full domain** (complete): `ch_width(c) <= c.len_utf8()` for every `char`, both feature sets (K1); the float-exactness facts C05's one-line argument uses, for every pair of `usize` operands (K3); `'\\r'.is_whitespace()` on the real std function, an axiom of U9's C18 theorem (K5).
+  2. **Kani, loop-free / full domain** (complete): `ch_width(c) <= c.len_utf8()` for every `char`, both feature sets (K1); the float-exactness facts C05's one-line argument uses, for every pair of `usize` operands (K3); `'\\r'.is_whitespace()` on the real std function, an axiom of U9's C18 theorem, and the specs assumed for `char::is_ascii` / `u8::is_ascii_whitespace` in the shared prelude, for every `char` / every `u8` (K5).
   3. **Kani, bounded**: `wrap_first_fit` with bit-precise IEEE-754 floats, 3 fragments (K2, thorough tier of C07) — labelled *bounded*.
   4. **Bounded exhaustive contract checking (BEC)**: the same contracts in executable form, evaluated on the real crate
      (linked natively from `/repo`, both feature sets) for *every* input of a stated small scope plus seeded random
@@ -73,7 +73,7 @@ seeded changes and which check catches which in §11.
   | U23 | `optimal_fit::LineNumbers::{new, get}` (RefCell memo, rewrite R17) | terminates, no panic, returns the number of back-pointer hops — for every table of smawk's shape | C03, C06, C04 |
   | U24 | **dependency** `smawk` (version pinned by `Cargo.lock`, source read from the cargo registry): `online_column_minima`, `smawk_inner` | for every matrix callback (no monotonicity assumed): no panic (the `assert!`s of the `m!` macro, every index and subtraction), termination, the callback is called only on cells above the diagonal whose row is finished and with a well-shaped table, the result is a back-pointer table of length `size` with entry `k` pointing at a row `< k` — the contract U2 used to assume (A6) | C06, C03, C04 |
   | K1 | `core::ch_width` | `ch_width(c) <= c.len_utf8()` for all 1,112,064 scalar values (Kani, loop-free) | C10, C05, C04 |
-  | K5 | `char::is_whitespace` (std) | `'\\r'.is_whitespace()` — U9's axiom `cr_is_ws` — on the real std function (Kani, loop-free, concrete characters) | C18 |
+  | K5 | `char::is_whitespace` (std) | `'\\r'.is_whitespace()` — U9's axiom `cr_is_ws` — on the real std function (Kani, loop-free, concrete characters); `char::is_ascii(c) == (c < 128)` for every char and `u8::is_ascii_whitespace(b) == b ∈ {32, 9, 10, 12, 13}` for every u8 — the two char-level `assume_specification`s of `prelude/std_more.vrs` | C18 |
   | K3 | `Word::width()` (`usize as f64`) and f64 `+`, `>` | `a + b < 2^53` implies `a as f64 + b as f64 == (a + b) as f64`; `a <= b` implies `!(a as f64 > b as f64)`; `0 as f64 == 0.0`; 64-bit `usize` — the A16 axioms of U17, all `usize` operands (Kani, loop-free, bit-precise) | C05 |
 
 * **Genuine defects found and repaired** (five `fix:` commits in `/repo`, §5): F1 (C02), F2 (C08), F5 (C20/C04) were
@@ -135,7 +135,7 @@ w("""### 2.3 Back ends
   deletes the copy and its `target/`. No commit to `/repo` is needed (`MANIFEST.hooks`: no source commits; guards are the
   compiler-provided `kani` cfg and upstream's existing `--cfg fuzzing`). **K1** `ch_width(c) <= c.len_utf8()`,
   `c: char = kani::any()`, loop-free, both feature sets, with a `should_panic` reachability twin — complete; quick tier of
-  C04, C05, C10, C20 (2–10 s; it also checks that a space is one column wide, for C20). **K3** the three float facts that U17 states as axioms (A16), over symbolic `usize` operands, with the conversion taken from the real `Fragment` accessor and a `should_panic` twin that drops the 2^53 bound — complete; quick tier of C05 (≈ 80 s, almost all of it the 64-bit adder). **K5** `'\\r'.is_whitespace()` (with `'\\n'`, `' '`, U+3000 and a non-whitespace control) on the real std function, the second std fact of U9's C18 theorem — complete; quick tier of C18 (≈ 2 s). **K2** `wrap_first_fit`, 3 fragments with quarter-integer widths < 4, two line widths < 8: U1's
+  C04, C05, C10, C20 (2–10 s; it also checks that a space is one column wide, for C20). **K3** the three float facts that U17 states as axioms (A16), over symbolic `usize` operands, with the conversion taken from the real `Fragment` accessor and a `should_panic` twin that drops the 2^53 bound — complete; quick tier of C05 (≈ 80 s, almost all of it the 64-bit adder). **K5** `'\\r'.is_whitespace()` (with `'\\n'`, `' '`, U+3000 and a non-whitespace control) on the real std function, the second std fact of U9's C18 theorem, plus two full-domain harnesses (every `char`, every `u8`) that discharge the specs the shared prelude assumes for `char::is_ascii` and `u8::is_ascii_whitespace` — complete; quick tier of C18 (≈ 4 s). **K2** `wrap_first_fit`, 3 fragments with quarter-integer widths < 4, two line widths < 8: U1's
   postconditions under real IEEE semantics — *bounded*, ≈ 10 min / 13 GB, thorough tier of C07. (The planned K4 for the
   SMAWK call shape was first covered by the BEC contract `A6.smawk.call_shape` on the real `smawk` crate and is now also proved in U24; the BEC contract still runs.)
 * **BEC** (`/verif/bec`, `textwrap = { path = "/repo" }`, built offline with `--cfg fuzzing`, release profile with
